@@ -10,9 +10,9 @@ RULE = ("datasets of 2..6 same-shaped layers (ties via small alphabets, NaN cell
         "C/F/strided/negative-stride per layer; oracle = the definition applied to stack[:, i, j]; plus the cell-permutation "
         "relation (same permutation of cells in every layer permutes the output); non-trivial = distinct (function, shape, "
         "layouts, data hash) with >=2 distinct output values")
-BUDGET = {'quick': 60, 'thorough': 400}
+BUDGET = {'quick': 120, 'thorough': 400}
 FLOORS = {'quick': {'cell_stats': 150, 'frequency.sum_is_n': 48, 'combine.ids': 50, 'rank': 48, 'position': 100,
-                    'layout.non_C': 150, 'permutation_relation': 200},
+                    'layout.non_C': 150, 'permutation_relation': 200, 'cell.has_both_infinities': 6},
           'thorough': {'cell_stats': 1500, 'combine.ids': 500, 'layout.non_C': 1500}}
 ASSUMPTIONS = ['reference layers are NaN-free (the statement only specifies NaN in data layers)',
                'rank/popularity reference layers are integer typed with values in 1..n',
@@ -45,6 +45,9 @@ def check(rec, kind, idx, rng, tier):
     # nearly-equal values only in all-float64 datasets: with mixed float32/float64 layers NumPy compares a float32 reference
     # with the other layers' Python floats in float32 (NEP 50), which is outside what the statement pins down
     near_equal = (not as_int) and rng.random() < 0.25
+    with_inf = (not as_int) and rng.random() < 0.25
+    # every layer of one narrow integer type, values up to its limits: sums and ranges across layers leave the type's range
+    narrow = str(rng.choice(['uint8', 'int8', 'int16', 'uint16'])) if (as_int and rng.random() < 0.35) else None
     layers, layouts = {}, {}
     for nm in names:
         a = rng.integers(0, alpha, size=(H, W)).astype('float64')
@@ -55,7 +58,14 @@ def check(rec, kind, idx, rng, tier):
         if not as_int and rng.random() < 0.5:
             m = rng.random((H, W)) < rng.choice([0.05, 0.2, 0.5])
             a[m] = np.nan
-        dt = str(rng.choice(['int32', 'int64', 'uint8'])) if as_int else ('float64' if near_equal else str(rng.choice(['float64', 'float64', 'float32'])))
+        if with_inf:
+            # infinite cells are data, not NaN: +inf in one layer and -inf in another at the same cell must still be counted / ranked
+            mi = rng.random((H, W)) < 0.3
+            a[mi] = rng.choice([np.inf, -np.inf], size=int(mi.sum()))
+        if narrow:
+            ii = np.iinfo(narrow)
+            a = rng.integers(ii.min, ii.max + 1, size=(H, W)).astype('float64') if rng.random() < 0.7 else rng.choice([ii.max, ii.max - 1, ii.min, 0, 1], size=(H, W)).astype('float64')
+        dt = narrow if narrow else str(rng.choice(['int32', 'int64', 'uint8'])) if as_int else ('float64' if near_equal else str(rng.choice(['float64', 'float64', 'float32'])))
         lay = str(rng.choice(['C', 'C', 'F', 'strided', 'neg']))
         layers[nm] = gen.layout(a.astype(dt), lay)
         layouts[nm] = lay
@@ -70,6 +80,10 @@ def check(rec, kind, idx, rng, tier):
     used = names if use_default else sel
     stack = np.stack([np.asarray(layers[v], dtype='float64') for v in used])
     anynan = np.isnan(stack).any(axis=0)
+    if narrow:
+        rec.cls('layers.one_narrow_integer_type')
+    if (np.isposinf(stack).any(axis=0) & np.isneginf(stack).any(axis=0)).any():
+        rec.cls('cell.has_both_infinities')
     non_c = any(layouts[v] != 'C' for v in used)
     base = dict(H=H, W=W, n=n, data_vars=dv, layouts={v: layouts[v] for v in used},
                 layers={v: np.asarray(layers[v]) for v in used})
